@@ -224,6 +224,7 @@ Render(val, hashbits) ==
 AllDocVals == UNION {UNION {DocVals(l, k) : k \in KeySet(l)} : l \in LangsAll}
 DocRender == TLCEval([x \in AllDocVals |-> Render(x, 32)])             \* evaluated once
 Render32(x) == IF x \in AllDocVals THEN DocRender[x] ELSE Render(x, 32)
+DocRenderWeak == TLCEval([x \in AllDocVals |-> Render(x, 1)])         \* a 1-bit hash: negative control of the design model
 
 ASSUME Limbs(Crc32(T_check)) = <<52212, 14630>>      \* 0xCBF43926, the catalogued check value of CRC-32/ISO-HDLC
 ASSUME CrcBitwise(T_check, 1, Ones) = <<52212, 14630>> /\ CrcBitwise(T_tplCetl, 1, Ones) = Crc32(T_tplCetl)
